@@ -385,9 +385,10 @@ func ruleConsistencyInLiterals(e *Engine, r *Reporter) {
 				if !has || len(lit.node.Elts) == 0 {
 					return
 				}
-				fd := funcDeclName(e.enclosingFuncDecl(p, lit.node.Pos()))
-				if _, ok := freshRequestSites[short(p.PkgPath)+"."+fd]; ok {
-					return
+				decl := e.enclosingFuncDecl(p, lit.node.Pos())
+				fd := funcDeclName(decl)
+				if !hasConsistencySource(p.TypesInfo, decl) {
+					return // nothing to inherit: the function receives no value that carries a consistency preference
 				}
 				tn := typeBaseName(t)
 				k := fd + "|" + tn
@@ -414,13 +415,3 @@ func ruleConsistencyInLiterals(e *Engine, r *Reporter) {
 	}
 }
 
-// freshRequestSites build a request that has no caller-supplied consistency to inherit.
-var freshRequestSites = map[string]string{
-	"internal/authz.Authorizer.ListAuthorizedStores": "access-control query against the control store: a new request, nothing to inherit",
-	"internal/authz.Authorizer.individualAuthorize":  "access-control query against the control store: a new request, nothing to inherit",
-	"pkg/server.buildCheckRequest":                   "AuthZEN requests have no consistency parameter",
-	"pkg/server.Server.evaluateAll":                  "AuthZEN requests have no consistency parameter",
-	"pkg/server.Server.SubjectSearch":                "AuthZEN requests have no consistency parameter",
-	"pkg/server.Server.ResourceSearch":               "AuthZEN requests have no consistency parameter",
-	"pkg/server.Server.ActionSearch":                 "AuthZEN requests have no consistency parameter",
-}
